@@ -27,7 +27,8 @@ def add_demo():
     open(target, 'w').write(s)
 
 def run():
-    p = sh('cargo', 'test', '--offline', '-p', 'elvis-core', '--lib', filt, cwd=os.path.join(wt, 'sim'), env=env)
+    feat = ['--features', os.environ['SEED_FEATURES']] if os.environ.get('SEED_FEATURES') else []
+    p = sh('cargo', 'test', '--offline', '-p', 'elvis-core', '--lib', *feat, filt, cwd=os.path.join(wt, 'sim'), env=env)
     out = p.stdout + p.stderr
     import re
     m = re.search(r'test result: (\w+)\. (\d+) passed; (\d+) failed', out)
